@@ -1,1 +1,149 @@
-//! (to be filled)
+//! Independent protobuf wire-format decoder for the TCP exporter's `Event` stream (fields by number from
+//! `metrics-exporter-tcp/proto/event.proto`), written from the wire-format specification.
+#[derive(Clone, Debug, PartialEq)]
+pub enum Frame {
+    Metadata { name: String, metric_type: u64, unit: Option<String>, description: Option<String> },
+    Metric { name: String, labels: Vec<(String, String)>, op: String, has_timestamp: bool },
+}
+
+fn varint(b: &[u8], pos: &mut usize) -> Result<u64, String> {
+    let mut v: u64 = 0;
+    let mut shift = 0;
+    loop {
+        let byte = *b.get(*pos).ok_or("truncated varint")?;
+        *pos += 1;
+        v |= ((byte & 0x7f) as u64) << shift;
+        if byte & 0x80 == 0 {
+            return Ok(v);
+        }
+        shift += 7;
+        if shift > 63 {
+            return Err("varint too long".into());
+        }
+    }
+}
+
+/// (field number, wire type, payload) triples of one message
+fn fields(b: &[u8]) -> Result<Vec<(u64, u8, Vec<u8>, u64)>, String> {
+    let mut out = Vec::new();
+    let mut pos = 0;
+    while pos < b.len() {
+        let tag = varint(b, &mut pos)?;
+        let (num, wt) = (tag >> 3, (tag & 7) as u8);
+        match wt {
+            0 => {
+                let v = varint(b, &mut pos)?;
+                out.push((num, wt, vec![], v));
+            }
+            1 => {
+                let s = b.get(pos..pos + 8).ok_or("truncated fixed64")?;
+                pos += 8;
+                out.push((num, wt, s.to_vec(), u64::from_le_bytes(s.try_into().unwrap())));
+            }
+            2 => {
+                let n = varint(b, &mut pos)? as usize;
+                let s = b.get(pos..pos + n).ok_or("truncated length-delimited field")?;
+                pos += n;
+                out.push((num, wt, s.to_vec(), 0));
+            }
+            5 => {
+                let s = b.get(pos..pos + 4).ok_or("truncated fixed32")?;
+                pos += 4;
+                out.push((num, wt, s.to_vec(), 0));
+            }
+            w => return Err(format!("unsupported wire type {}", w)),
+        }
+    }
+    Ok(out)
+}
+
+fn utf8(b: &[u8]) -> Result<String, String> {
+    String::from_utf8(b.to_vec()).map_err(|_| "string field is not utf-8".to_string())
+}
+
+pub fn decode_event(b: &[u8]) -> Result<Frame, String> {
+    let top = fields(b)?;
+    if top.len() != 1 {
+        return Err(format!("Event with {} fields (exactly one of metadata / metric expected)", top.len()));
+    }
+    let (num, wt, payload, _) = &top[0];
+    if *wt != 2 {
+        return Err("Event field is not a message".into());
+    }
+    let fs = fields(payload)?;
+    match num {
+        1 => {
+            let mut name = String::new();
+            let mut ty = 0;
+            let mut unit = None;
+            let mut desc = None;
+            for (n, _, p, v) in fs {
+                match n {
+                    1 => name = utf8(&p)?,
+                    2 => ty = v,
+                    3 => unit = Some(utf8(&p)?),
+                    4 => desc = Some(utf8(&p)?),
+                    other => return Err(format!("unknown Metadata field {}", other)),
+                }
+            }
+            Ok(Frame::Metadata { name, metric_type: ty, unit, description: desc })
+        }
+        2 => {
+            let mut name = String::new();
+            let mut labels = Vec::new();
+            let mut op: Option<String> = None;
+            let mut ts = false;
+            for (n, _, p, v) in fs {
+                match n {
+                    1 => name = utf8(&p)?,
+                    2 => ts = true,
+                    3 => {
+                        let kv = fields(&p)?;
+                        let mut k = String::new();
+                        let mut val = String::new();
+                        for (kn, _, kp, _) in kv {
+                            match kn {
+                                1 => k = utf8(&kp)?,
+                                2 => val = utf8(&kp)?,
+                                _ => return Err("unknown map entry field".into()),
+                            }
+                        }
+                        labels.push((k, val));
+                    }
+                    4 => op = Some(format!("increment_counter({})", v)),
+                    5 => op = Some(format!("set_counter({})", v)),
+                    6 => op = Some(format!("increment_gauge({})", f64::from_bits(v))),
+                    7 => op = Some(format!("decrement_gauge({})", f64::from_bits(v))),
+                    8 => op = Some(format!("set_gauge({})", f64::from_bits(v))),
+                    9 => op = Some(format!("record_histogram({})", f64::from_bits(v))),
+                    other => return Err(format!("unknown Metric field {}", other)),
+                }
+            }
+            labels.sort();
+            Ok(Frame::Metric { name, labels, op: op.ok_or("Metric without operation")?, has_timestamp: ts })
+        }
+        other => Err(format!("unknown Event field {}", other)),
+    }
+}
+
+/// Splits a byte stream into varint-length-delimited frames. Returns (frames, trailing bytes that do not form a whole frame).
+pub fn split_stream(b: &[u8]) -> Result<(Vec<Frame>, usize), String> {
+    let mut out = Vec::new();
+    let mut pos = 0;
+    loop {
+        if pos == b.len() {
+            return Ok((out, 0));
+        }
+        let start = pos;
+        let mut p = pos;
+        let n = match varint(b, &mut p) {
+            Ok(n) => n as usize,
+            Err(_) => return Ok((out, b.len() - start)),
+        };
+        if p + n > b.len() {
+            return Ok((out, b.len() - start));
+        }
+        out.push(decode_event(&b[p..p + n]).map_err(|e| format!("frame at byte {}: {}", start, e))?);
+        pos = p + n;
+    }
+}
